@@ -30,6 +30,9 @@ const serial0 = uint32(405419896) // 0x182a6f78: byte-asymmetric
 type client struct {
 	u    uhppote.IUHPPOTE
 	fake *drv.Fake
+	// answer: when set, what the network answers with to the next requests (family 5: what a call
+	// sends does not depend on what comes back)
+	answer func(request []byte) [][]byte
 }
 
 func cannedReply(c drv.Call) ([][]byte, error) {
@@ -48,7 +51,13 @@ func newClient() *client { return newClientCfg(0) }
 // 2 = configured as a struct literal with a time zone (UTC-8), TCP. The request bytes are a function
 // of the call alone: they must be the same under every configuration.
 func newClientCfg(cfg int) *client {
-	f := &drv.Fake{Script: cannedReply}
+	c := &client{}
+	f := &drv.Fake{Script: func(call drv.Call) ([][]byte, error) {
+		if c.answer != nil {
+			return c.answer(call.Request), nil
+		}
+		return cannedReply(call)
+	}}
 	var devices []uhppote.Device
 	addr := types.ControllerAddrFrom(netip.MustParseAddr("192.168.1.100"), 60000)
 	switch cfg {
@@ -56,12 +65,33 @@ func newClientCfg(cfg int) *client {
 		devices = []uhppote.Device{uhppote.NewDevice("alpha", serial0, addr, "udp", []string{"A", "B", "C", "D"}, time.FixedZone("UTC+8", 8*3600))}
 	case 2:
 		devices = []uhppote.Device{{Name: "beta", DeviceID: serial0, Address: addr, Doors: []string{"A", "B", "C", "D"}, TimeZone: time.FixedZone("UTC-8", -8*3600), Protocol: "tcp"}}
+	// 3..9: "rich" descriptions of the controller - fewer / more door names than doors, no time zone, a
+	// DST zone, no address (broadcast path), an IPv6 address
+	case 3:
+		devices = []uhppote.Device{{Name: "one", DeviceID: serial0, Address: addr, Doors: []string{"Front"}, TimeZone: time.UTC, Protocol: "udp"}}
+	case 4:
+		devices = []uhppote.Device{{Name: "two", DeviceID: serial0, Address: addr, Doors: []string{"Front", "Back"}, TimeZone: time.UTC, Protocol: "tcp"}}
+	case 5:
+		devices = []uhppote.Device{{Name: "three", DeviceID: serial0, Address: addr, Doors: []string{"A", "B", "C"}, Protocol: "udp"}}
+	case 6:
+		devices = []uhppote.Device{{Name: "five", DeviceID: serial0, Address: addr, Doors: []string{"A", "B", "C", "D", "E"}, TimeZone: time.UTC, Protocol: "udp"}}
+	case 7:
+		tz, err := time.LoadLocation("America/Santiago")
+		if err != nil {
+			panic(err)
+		}
+		devices = []uhppote.Device{uhppote.NewDevice("new", serial0, addr, "udp", nil, tz)}
+	case 8:
+		devices = []uhppote.Device{{Name: "", DeviceID: serial0, Doors: []string{"A", "B"}, TimeZone: time.UTC}}
+	case 9:
+		devices = []uhppote.Device{{Name: "six", DeviceID: serial0, Address: types.ControllerAddrFrom(netip.MustParseAddr("2001:db8::68"), 60000), Doors: []string{"A", "B"}, Protocol: "udp"}}
 	}
 	u := uhppote.NewUHPPOTE(types.BindAddr{}, types.BroadcastAddr{}, types.ListenAddr{}, time.Second, devices, false)
 	if !drv.Install(u, f) {
 		panic("cannot install fake driver")
 	}
-	return &client{u, f}
+	c.u, c.fake = u, f
+	return c
 }
 
 type caseT struct {
@@ -637,6 +667,51 @@ func main() {
 		}
 	}
 
+	// (1c) richer descriptions of the controller (configurations 3..9): every operation's baseline,
+	// every argument over its boundary alphabet and every 8-bit argument over all 256 values - which
+	// bytes a call sends, and whether it is sent, does not depend on how the controller is described
+	vk.Parallel(7, func(k int) {
+		cfg := 3 + k
+		c := newClientCfg(cfg)
+		var n int64
+		for i := range spec.Ops {
+			op := &spec.Ops[i]
+			if op.Broadcast {
+				continue
+			}
+			base := ops.Baseline(op)
+			h := fmt.Sprintf("client configuration %d", cfg)
+			call(r, c, op, serial0, base, wireArgs(op, base), h)
+			n++
+			for _, f := range op.Req {
+				if f.Enc == spec.Magic {
+					continue
+				}
+				vals := boundary(f)
+				if f.Enc == spec.U8 || f.Enc == spec.Bool {
+					vals = domain(r, f, nil, nil)
+				}
+				for _, v := range vals {
+					a := with(base, f.Name, v)
+					if op.Name == "SetTimeProfile" && f.Enc == spec.HHmm {
+						if f.Name[len(f.Name)-3:] == "End" {
+							a[f.Name[:len(f.Name)-3]+"Start"] = spec.HM{}
+						} else {
+							a[f.Name[:len(f.Name)-5]+"End"] = spec.HM{H: 24}
+						}
+					}
+					if !accepted(op, serial0, a) {
+						continue
+					}
+					call(r, c, op, serial0, a, wireArgs(op, a), h)
+					n++
+				}
+				c.fake.Reset()
+			}
+		}
+		atomic.AddInt64(&distinct, n)
+	})
+
 	// (3b) SetTime histories by value: consecutive calls whose arguments are the same instant in two
 	// different Locations (different wall clocks -> different bytes), the same wall clock in two
 	// Locations (different instants -> same bytes), and two instants within one second: for every
@@ -719,9 +794,68 @@ func main() {
 					}
 				}
 			}
+			// dates that carry a time of day, around removed local midnights of the Location they are held in
+			tod := ops.DatesWithTimeOfDay()
+			for _, t := range tod {
+				send(t, t.AddDate(0, 6, 0))
+				send(t.AddDate(0, -6, 0), t)
+			}
 			c.fake.Reset()
 		}
 	}
+
+	// (5) replies: the request stream of a call does not depend on what the controller answers. Every
+	// operation's baseline call against: the well-formed baseline reply; that reply with each field
+	// in turn all-zero and all-ones, and every single-byte field over all 256 values (event type 0xff,
+	// door states, flags, ...); silence; a reply from another controller; a truncated reply - through
+	// the unconfigured, the UDP- and the TCP-configured client. Exactly one request, the same bytes.
+	vk.Parallel(len(spec.Ops), func(i int) {
+		op := &spec.Ops[i]
+		if op.Broadcast || op.NoReply {
+			return
+		}
+		base := ops.Baseline(op)
+		valid := spec.EncodeReply(op, serial0, ops.BaselineReply(op))
+		answers := [][][]byte{{valid}, {}, {append([]byte{}, valid[:40]...)}}
+		other := append([]byte{}, valid...)
+		other[4] ^= 0x01
+		answers = append(answers, [][]byte{other}, [][]byte{other, valid}, [][]byte{valid, valid})
+		for _, f := range op.Reply {
+			w := f.Enc.Width()
+			for _, fill := range []byte{0x00, 0xff} {
+				b := append([]byte{}, valid...)
+				for k := 0; k < w && f.Off+k < 64; k++ {
+					b[f.Off+k] = fill
+				}
+				answers = append(answers, [][]byte{b})
+			}
+			if w == 1 {
+				for v := 0; v < 256; v++ {
+					b := append([]byte{}, valid...)
+					b[f.Off] = byte(v)
+					answers = append(answers, [][]byte{b})
+				}
+			}
+		}
+		var n int64
+		for cfg := 0; cfg <= 2; cfg++ {
+			c := newClientCfg(cfg)
+			for k, ans := range answers {
+				ans := ans
+				c.answer = func([]byte) [][]byte {
+					out := make([][]byte, len(ans))
+					for i := range ans {
+						out[i] = append([]byte{}, ans[i]...)
+					}
+					return out
+				}
+				call(r, c, op, serial0, base, wireArgs(op, base), fmt.Sprintf("client configuration %d; the controller answers with reply variant %d: %x", cfg, k, ans))
+				n++
+				c.fake.Reset()
+			}
+		}
+		atomic.AddInt64(&distinct, n)
+	})
 
 	// (4) histories: every ordered pair of operations on one client, and alternating between two
 	// clients; thorough: every ordered triple over a 10-operation sub-alphabet. Each operation has
@@ -792,7 +926,7 @@ func main() {
 	}
 
 	r.Distinct(distinct)
-	r.Rule("per operation: baseline x serial alphabet (also through clients that have the controller configured with a time zone of its own, via NewDevice/UDP and as a literal/TCP, together with the SetTime sweep); every argument over its full single-field domain (all uint8, 32-bit structured alphabet, all HH:mm, all ports, every octet, dates: thorough all 3652058 / quick 7 full years + first/last of every month, PINs: thorough all 10^6 / quick 0..9999 + boundaries); all argument pairs over boundary alphabets; every ordered pair of boundary values of one argument as two consecutive calls; all map shapes; passcode lists <= 6; SetTime over 5 Locations x every hour of 2024, and consecutive SetTime calls with the same instant / the same wall clock / the same second in every ordered pair of 7 Locations; consecutive AddTask / PutCard / SetTimeProfile calls whose Date arguments are the same instant / the same calendar day held in two different Locations; every ordered pair of the 32 operations as a history on one and on two clients (thorough: triples over 10 operations). distinct = distinct (operation, argument tuple[, history]) cases generated; each differs from the baseline in at least one argument")
+	r.Rule("per operation: baseline x serial alphabet (also through clients that have the controller configured with a time zone of its own, via NewDevice/UDP and as a literal/TCP, together with the SetTime sweep; and, with every argument over its boundary alphabet and every 8-bit argument over all 256 values, through 7 richer descriptions of the controller: 1/2/3/5 door names, NewDevice with a DST zone, no address, an IPv6 address); every argument over its full single-field domain (all uint8, 32-bit structured alphabet, all HH:mm, all ports, every octet, dates: thorough all 3652058 / quick 7 full years + first/last of every month, PINs: thorough all 10^6 / quick 0..9999 + boundaries); all argument pairs over boundary alphabets; every ordered pair of boundary values of one argument as two consecutive calls; all map shapes; passcode lists <= 6; SetTime over 5 Locations x every hour of 2024, and consecutive SetTime calls with the same instant / the same wall clock / the same second in every ordered pair of 7 Locations; consecutive AddTask / PutCard / SetTimeProfile calls whose Date arguments are the same instant / the same calendar day held in two different Locations; every ordered pair of the 32 operations as a history on one and on two clients (thorough: triples over 10 operations); every operation's baseline call against reply variants (valid; each reply field all-zero / all-ones; every single-byte reply field over all 256 values; silence; foreign; truncated; duplicated) on three client configurations. distinct = distinct (operation, argument tuple[, history]) cases generated; each differs from the baseline in at least one argument")
 	r.Assume("reference encoder spec.EncodeRequest and tables spec/protocol.go (hand-written)")
 	r.Assume("process time zone pinned to UTC (zone dependence is C05/C13)")
 	r.Finish()
